@@ -279,9 +279,32 @@ let lvalue_line (id : string) (body : string) : unit =
     Printf.printf "%s\t%s\t%s\n" id out out
   | _ -> failwith ("bad lvalue line: " ^ body)
 
+(* "#lex R1 R2 ...": a text as decimal rune codes; MODEL = tokens of Model/Lexer.v (LexNextRune with the
+   look-back ring), SPEC = tokens of Model/LexerPrev.v (the ring-free lexer that is handed the true previous
+   rune); printed like harness tokObs: Kind:text ... [!E] *)
+let kind_names = [| "Empty"; "LParen"; "RParen"; "LSquare"; "RSquare"; "LCurly"; "RCurly"; "Dot"; "Quote"; "Backtick";
+  "Tilde"; "TildeAt"; "Symbol"; "Bool"; "Decimal"; "Hex"; "Oct"; "Binary"; "Float"; "Char"; "String"; "Caret";
+  "ColonOperator"; "ThreadingOperator"; "Backslash"; "Dollar"; "DotSymbol"; "FreshAssign"; "BeginBacktickString";
+  "BacktickString"; "Comment"; "BeginBlockComment"; "EndBlockComment"; "Semicolon"; "SymbolColon"; "Comma"; "Uint64"; "End" |]
+let esc_runes (l : z list) : string =
+  let b = Buffer.create 32 in
+  List.iter (fun c ->
+    let c = int_of_z c in
+    if c >= 0x21 && c <= 0x7e && c <> 92 && c <> 35 && c <> 124 then Buffer.add_char b (Char.chr c)
+    else Buffer.add_string b (Printf.sprintf "\\%d;" c)) l;
+  Buffer.contents b
+let show_lex (toks, ok) : string =
+  let l = List.map (fun (k, s) -> kind_names.(int_of_z k) ^ ":" ^ esc_runes s) toks in
+  String.concat " " (if ok then l else l @ ["!E"])
+let lex_line (id : string) (body : string) : unit =
+  let ws = List.filter (fun x -> x <> "") (String.split_on_char ' ' body) in
+  let text = List.map z_of_string (List.tl ws) in
+  Printf.printf "%s\t%s\t%s\n" id (esc_final (show_lex (lex_obs text))) (esc_final (show_lex (lexp_obs text)))
+
 let () =
   iter_lines (fun line ->
     match split_tab line with
+    | id :: body :: _ when String.length body >= 4 && String.sub body 0 4 = "#lex" -> lex_line id body
     | id :: body :: _ when String.length body > 6 && String.sub body 0 6 = "#slice" -> slice_line id body
     | id :: body :: _ when String.length body > 7 && String.sub body 0 7 = "#lvalue" -> lvalue_line id body
     | id :: body :: _ ->
